@@ -11,6 +11,8 @@ from .. import terms
 ID = "C09"
 ANCHORS = 'ism._attribution_score,ism._edit_distance_one,ism.saturation_mutagenesis'.split(",")
 MIN_INSTANCES = 10
+# rule families whose findings in this module are derived by an engine (not by comparing spellings): exempt from the rewrite gate
+SEMANTIC_RULES = {"R-TERM", "R-PURE"}
 EXPLANATION = (
     "R-AXES: the producer ism._edit_distance_one enumerates mutants with itertools.product; its operand order gives the "
     "flat layout (major -> minor) and extents; every reshape that un-flattens the stacked predictions in "
